@@ -51,12 +51,12 @@ REQUIRED = dict(
               'obs:widths-midpoint', 'obs:edges-4col', 'obs:edges-midpoint', 'obs:edges-bracket-centres',
               'binner:declared-with-observation-grid', 'binner:returns-observation-grid',
               'binner:model-aligned-with-observation', 'order-independence', 'text:rows-as-written',
-              'hdf5:columns-as-written'],
+              'hdf5:columns-as-written', 'obs:still-one-observation-after-the-caller-re-used-its-array'],
     classes=['source:array', 'source:text', 'source:hdf5', 'columns:3', 'columns:4', 'order:ascending-wavelength',
              'order:descending-wavelength', 'order:random', 'n:2', 'grid:linear', 'grid:constR', 'grid:irregular',
              'grid:two-instruments', 'widths:overlapping-bins', 'widths:narrow',
              'second-observation:same-count-and-ends-other-spacing', 'second-observation:columns-3', 'rows-dtype:i',
-             'rows:tied-centres', 'widths:tied-centres'])
+             'rows:tied-centres', 'widths:tied-centres', 'array:caller-re-used-its-array'])
 EPS = float(np.finfo(float).eps)
 
 _state = {'last_obs': None, 'last_binner_decl': None, 'ctx': None}
@@ -359,6 +359,33 @@ def wl_array(ctx, rng):
     rows, kind, wkind = gen_rows(rng)
     observe_case(ctx, 'array', rows, kind, wkind)
     run_source(ctx, rng, 'array', rows, lambda r: ArraySpectrum(np.array(r, copy=True)))
+    # the caller RE-USES the array it built the observation from (the next data set is read into the same work array):
+    # the observation either kept its own copy (nothing changes) or is a view of the caller's rows (then it is what a
+    # fresh observation of the new content is) -- anything in between (new values with the old widths or edges, rows no
+    # longer in ascending wavenumber) is an observation that contradicts itself
+    if rng.random() < 0.6:
+        nrow = rows.shape[0]
+        si = int(rng.integers(0, 4))
+        start = [np.arange(nrow), np.argsort(rows[:, 0])[::-1], np.argsort(rows[:, 0]), rng.permutation(nrow)][si]
+        arr = np.array(rows[start], dtype=float, copy=True)
+        obs = ArraySpectrum(arr)
+        before = props_of(obs)
+        nxt = np.array(rows[rng.permutation(nrow)], dtype=float, copy=True)
+        nxt[:, 0] = nxt[:, 0] * float(rng.uniform(1.01, 1.2))         # another grid: the wavelengths of the next data set
+        nxt[:, 1] = 1e4 / nxt[:, 0]
+        if rows.shape[1] == 3 and np.sort(nxt[:, 0])[0] - 0.5 * np.diff(np.sort(nxt[:, 0]))[0] <= 0:
+            nxt = None
+        if nxt is not None:
+            arr[...] = nxt
+            after = props_of(obs)
+            fresh = props_of(ArraySpectrum(np.array(arr, copy=True)))
+
+            def same(x, y):
+                return all(k in y and np.array_equal(x[k], y[k]) for k in x if k != '_perm')
+            ctx.check('obs:still-one-observation-after-the-caller-re-used-its-array', same(after, before) or same(after, fresh),
+                      kept_its_copy=same(after, before), follows_the_array=same(after, fresh), rows_given_in=
+                      ['as-generated', 'descending-wavelength', 'ascending-wavelength', 'random'][si], n=nrow, columns=int(rows.shape[1]))
+            ctx.observe('array:caller-re-used-its-array')
     # ANOTHER observation right after it, with the same number of rows and the same first and last wavelength but the
     # other spacing (linear <-> geometric): nothing derived for the first grid may be handed to the second.  Every
     # loaded object is judged by the tap on the loader.
